@@ -59,14 +59,10 @@ def norm_ann(a):
             nv = _mods(v)
             if nv:
                 internal.append([k, nv])
-        if all(isinstance(kv[0], int) and not isinstance(kv[0], bool) for kv in internal):
-            internal.sort(key=lambda kv: kv[0])      # dict order is not observable state
         internal = internal or None
     ivs = None
     if a.intervals:
         ivs = [_interval(iv) if isinstance(iv, _pt.Interval) else ['raw', norm(iv)] for iv in a.intervals] or None
-        if ivs and all(iv[0] == 'interval' and isinstance(iv[1], int) and isinstance(iv[2], int) for iv in ivs):
-            ivs.sort(key=lambda iv: (iv[1], iv[2]))      # the order of the interval list is not observable state
     return ['ann', {
         'seq': a.sequence,
         'isotope': _mods(a.isotope_mods),
@@ -167,7 +163,12 @@ def same(a, b, path='', exc_text=False):
                 return _same_dict(a[1], b[1], path, exc_text)
             if tag == 'ann' or tag == 'frag':
                 for k in a[1]:
-                    d = same(a[1][k], b[1].get(k), f"{path}.{k}", exc_text)
+                    x, y = a[1][k], b[1].get(k)
+                    if tag == 'ann' and k in ('internal', 'intervals') and isinstance(x, list) and isinstance(y, list):
+                        # the order of the residue-mod dict and of the interval list is not observable state
+                        # (the dump itself keeps it, so that a rebuilt twin has the same order)
+                        x, y = sorted(x, key=_ordkey), sorted(y, key=_ordkey)
+                    d = same(x, y, f"{path}.{k}", exc_text)
                     if d:
                         return d
                 return None
@@ -195,6 +196,15 @@ def same(a, b, path='', exc_text=False):
 
 _TAGS = {'ann', 'mod', 'raw', 'interval', 'frag', 'fmatch', 'multi', 'enzcfg', 'dict', 'list', 'tuple', 'set',
          'lazy', 'exc', 'obj', 'deep'}
+
+
+def _ordkey(v):
+    # [index, mods] pairs and ['interval', start, end, ...] dumps
+    if isinstance(v, list) and v and v[0] == 'interval':
+        return (0, repr(v[1]), repr(v[2]), repr(v[3:]))
+    if isinstance(v, list) and v and isinstance(v[0], int) and not isinstance(v[0], bool):
+        return (1, v[0], '', '')
+    return (2, repr(v), '', '')
 
 
 def _same_dict(ia, ib, path, exc_text):
